@@ -2,6 +2,7 @@
   C10, whole histories — the own incarnation never goes backwards while an identity is in use.
 -/
 import FocaModel.Proofs.IncInv
+import FocaModel.Proofs.TellInv
 import FocaModel.Props.C08H
 namespace Foca.C10H
 open Foca
@@ -36,7 +37,9 @@ theorem incarnation_never_decreases_step (E : Env) (s : State) (op : Op) (orc : 
   have F := IncInv.full E s.id.addr s.id.gen s.inc
   have hrun := (F.runOp op
     (fun i p h => by subst h; simp [Op.restartsIncarnation] at hop)
-    (fun h => by subst h; simp [Op.restartsIncarnation] at hop)).run ⟨s, [], orc⟩
+    (fun h => by subst h; simp [Op.restartsIncarnation] at hop)
+    (fun _ _ _ _ => trivial) (fun _ _ _ _ _ => trivial)
+    (fun _ _ _ _ _ => ⟨trivial, fun _ _ _ _ _ => trivial⟩)).run ⟨s, [], orc⟩
     ⟨rfl, hinc, Or.inr ⟨rfl, Nat.le_refl _⟩⟩
   unfold step
   cases hr : runOp E op ⟨s, [], orc⟩ with
@@ -84,5 +87,55 @@ example : ∃ s', RunsTo C08H.exEnv (fun op => Op.restartsIncarnation op = false
     s'.inc = 5 ∧ s'.id = ⟨1, 0⟩ := by
   refine ⟨_, RunsTo.step (.applyMany [⟨⟨1, 0⟩, 4, .suspect⟩] false) ⟨[], []⟩ _ _ _ (RunsTo.refl _) rfl rfl, ?_⟩
   decide
+
+/-- **Nothing is fabricated, one call.** Let `τ id` be an upper bound for every incarnation the instance was told for
+    identity `id` so far, including by the input of this call (the members of an `apply_many` batch, the header
+    and the member section of a datagram, the member a suspicion timeout names). If everything the instance holds
+    — its member records, its probe target, and every update waiting in the backlog to be gossiped (the bytes of
+    an encoded member) — is within `τ` before the call, it is within `τ` after it: the call, whatever it does,
+    never produces a record or an update about `id` at an incarnation above what was told. -/
+theorem nothing_fabricated_step (E : Env) (τ : Id → Nat) (s : State) (op : Op) (orc : Oracle)
+    (h : TellInv E τ s) (hin : InputTold E τ op) :
+    match step E s op orc with
+    | .done s' _ _ _ => TellInv E τ s'
+    | .stuck _ => True := TellInv.step E τ s op orc h hin
+
+/-- a history together with a running bound of what the instance has been told -/
+inductive ToldHistory (E : Env) : State → (Id → Nat) → Prop
+  | init (id : Id) (pol : Policy) (cfg : Config) : ToldHistory E (State.init id pol cfg) (fun _ => 0)
+  | step {s s' : State} {τ τ' : Id → Nat} (op : Op) (orc : Oracle) (eff : List Effect) (r : Res) (left : Oracle) :
+      ToldHistory E s τ → (∀ id, τ id ≤ τ' id) → InputTold E τ' op →
+      Foca.step E s op orc = .done s' eff r left → ToldHistory E s' τ'
+
+/-- **Whole histories.** After any history of public calls, every member record, the probe target and every
+    pending update are at incarnations the instance was told (`τ` only ever grows by what the inputs carry):
+    what it can put into a Feed (its active records) or piggyback (its backlog) never exceeds that. -/
+theorem nothing_fabricated_over_histories (E : Env) {s : State} {τ : Id → Nat} (h : ToldHistory E s τ) :
+    (∀ m ∈ s.ms, m.inc ≤ τ m.id) ∧
+    (∀ e ∈ s.updates, ∃ u : Member, e.data = E.codec.encMember u ∧ u.inc ≤ τ u.id) := by
+  have key : TellInv E τ s := by
+    induction h with
+    | init id pol cfg =>
+      refine ⟨?_, ?_, ?_⟩ <;> intro x hx <;> simp [State.init] at hx
+    | step op orc eff r left _ hle hin hstep ih =>
+      have := TellInv.step E _ _ op orc (TellInv.mono E _ hle ih) hin
+      rw [hstep] at this
+      exact this
+  exact ⟨key.1, key.2.2⟩
+
+/-- non-vacuity: told about 2:0 at incarnation 3, the instance lists it at 3 and has the update queued -/
+example : ∃ s, ToldHistory C08H.exEnv s (fun id => if id = ⟨2, 0⟩ then 3 else 0) ∧ s.ms.map (·.inc) = [3] ∧
+    s.updates.length = 1 := by
+  refine ⟨_, ToldHistory.step (.applyMany [⟨⟨2, 0⟩, 3, .alive⟩] true) ⟨[.idx 0], []⟩ _ _ _
+    (ToldHistory.init ⟨1, 0⟩ .none C08H.exCfg) (fun _ => Nat.zero_le _) ?_ rfl, ?_⟩
+  · refine ⟨?_, ?_, ?_⟩
+    · intro us b h u hu
+      cases h
+      simp at hu
+      subst hu
+      simp
+    · intro data h; cases h
+    · intro m inc tok h; cases h
+  · decide
 
 end Foca.C10H
